@@ -35,6 +35,14 @@ def models(tier):
                                           [("tick", 1), ("m", 0, "badlen"), ("wrerr", 0), ("m", 0, "dwr"), ("m", 0, "dpr"), ("eof", 0), ("plan", "refused"),
                                            ("m", 1, "cea_ok"), ("m", 1, "badlen"), ("wrerr", 1), ("m", 1, "dwr")],
                                           MONS, max_socks=3, start_plan=["ok"], prelude=[("m", 0, "cea_ok")]))
+    # the lost peer must be redialled also while another connection keeps the I/O loop busy more often than its wake-up interval
+    busy = cfg(True, False, 2)
+    busy["node"]["wakeup"] = 3
+    busy["peers"].append({"name": "peer2.example.org"})
+    busy["apps"][0]["peers"] = [0, 1]
+    out.append(monitors.ScenarioModel("lost-peer-while-another-connection-is-busy", busy,
+                                      [("seq", ("tick", 1), ("m", 0, "dwr")), ("tick", 1), ("plan", "refused")],
+                                      MONS, max_socks=3, start_plan=["refused"], prelude=[("accept",), ("m", 0, "cer_p1")]))
     # a DWR is outstanding when the DPR arrives; the late DWA must not put the connection back into service
     wd = cfg(True, False, 5)
     wd["node"].update({"idle_timeout": 2, "dwa_timeout": 4})
@@ -117,7 +125,12 @@ def run(tier):
                     "executions": r["executions"], "distinct_outcomes": len(r["outcomes"]), "branching_points": r["max_points"]})
     rep.cov["schedules"] = sched
     depth = 8 if tier == "thorough" else 5
-    tot = monitors.run_models(rep, models(tier), depth, dedup_depth_plain=depth - 3, time_cap=1800 if tier == "thorough" else 110)
+    ms = models(tier)
+    tot = monitors.run_models(rep, [m for m in ms if not m.name.startswith("lost-peer-while")], depth, dedup_depth_plain=depth - 3, time_cap=1800 if tier == "thorough" else 110)
+    # small alphabet, needs a horizon of several wake-up intervals
+    t2 = monitors.run_models(rep, [m for m in ms if m.name.startswith("lost-peer-while")], 10, dedup_depth_plain=None, time_cap=300 if tier == "thorough" else 60)
+    for k in tot:
+        tot[k] = max(tot[k], t2[k]) if k == "max_depth" else tot[k] + t2[k]
     rep.cov.update({"states": tot["states"], "transitions": tot["transitions"], "traces_validated_against_impl": tot["transitions"] + tot["plain_transitions"] + sched,
                     "max_depth": tot["max_depth"], "states_without_dedup": tot["plain_states"],
                     "explanation": "BFS over histories of dial outcomes {ok, refused, in progress -> ok/fail}, CEA {2001, rejected, none -> timeout}, DPR, eof, "
